@@ -93,7 +93,15 @@ HISTORY = {"C%02d" % i for i in range(1, 15)}
 EXTRA = {
     "C06": "; both accumulation entry points (from_signatures, TryFrom<&[Signature]>) must agree",
     "C07": "; both accumulation entry points (from_signatures, TryFrom<&[Signature]>) must agree",
-    "C16": "; sibling payloads (a non-subgroup point sharing half its encoding with the valid payload decoded just before)",
+    "C01": "; structured message contents, lengths where pk||msg is 256 bytes, keys at magnitude boundaries, SecretKeyEnum carriers",
+    "C02": "; identity tuples, structured contents, lengths where pk||msg is 256 bytes",
+    "C03": "; aggregation lists with identity / repeated entries through both accumulation doors",
+    "C04": "; reference-built ElGamal proofs whose transcript is consistent with an identity component",
+    "C05": "; hand-assembled proofs of knowledge for the challenges 0, 1, r-1",
+    "C11": "; related wrong keys (-k, k+1, k-1, 2k, 1/k), structured contents, payload lengths around 256-byte hash inputs",
+    "C13": "; related-key signatures, varint-like contents, crafted length prefixes sealed by the reference",
+    "C14": "; plaintexts at magnitude boundaries, cancelling sums, related wrong keys, large share sets",
+    "C16": "; refusal of undecodable substituted bytes; sibling payloads (a non-subgroup point sharing half its encoding with the valid payload decoded just before)",
     "C17": "; cancellation catalogue (well-formed inputs crafted so that a derived point / scalar is the identity / zero)",
     "C18": "; second corpus (46 artefacts: custom ElGamal generator, identifiers 254/255, 40-signer aggregates, long payloads)",
     "C20": "; argument classes (every scheme, identifier / message lengths around 32 and 64 bytes, edge plaintexts, several (t,n))",
